@@ -327,6 +327,14 @@ CORPUS = [
     {"t": "ModExp", "k": 2, "mod": 7, "regs": {"x": [0, 1], "out": [2, 3, 4], "work": [5, 6, 7, 8, 9]}, "order": list(range(10))},
     {"t": "OutSquare", "regs": {"x": [0, 1], "out": [2, 3, 4], "work": [5, 6, 7]}, "order": list(range(8)), "matrix": True},
     {"t": "SignedOutSquare", "regs": {"x": [0, 1, 2], "out": [3, 4, 5], "work": [6, 7, 8]}, "order": list(range(9))},
+    # boundary register sizes: output of exactly 2n-1 and 2n wires (the last correction step is guarded by m >= 2n-1)
+    {"t": "SignedOutSquare", "regs": {"x": [0, 1], "out": [2, 3, 4], "work": [5, 6, 7]}, "order": list(range(8))},
+    {"t": "SignedOutSquare", "zeroed": True, "regs": {"x": [0, 1], "out": [2, 3, 4], "work": [5, 6]}, "order": list(range(7))},
+    {"t": "SignedOutSquare", "regs": {"x": [0, 1], "out": [2, 3, 4, 5], "work": [6, 7, 8, 9]}, "order": list(range(10))},
+    # comparator boundary values 2^n - 1 and 2^n
+    {"t": "IntegerComparator", "k": 3, "geq": True, "regs": {"x": [0, 1], "tgt": [2]}, "order": list(range(3)), "matrix": True},
+    {"t": "IntegerComparator", "k": 4, "geq": True, "regs": {"x": [0, 1], "tgt": [2]}, "order": list(range(3)), "matrix": True},
+    {"t": "IntegerComparator", "k": 7, "geq": True, "regs": {"x": [1, 2, 0], "tgt": [3]}, "order": list(range(4)), "matrix": True},
     {"t": "OutPoly", "mod": 7, "vars": ["x", "y"], "poly": [[1, [2, 0]], [1, [0, 1]]],
      "regs": {"x": [0, 1], "y": [2, 3], "out": [4, 5, 6], "work": [7, 8]}, "order": list(range(9))},
 ]
